@@ -565,7 +565,7 @@ func resultMatches(o *outcome, c *tcase, method string, r *callResult, v *fverdi
 		// A count larger than what was written: delivering it as is and
 		// refusing it in the call layer are both fine (a panic is caught
 		// separately).
-		if v.Msg.U("count") > 4 && r.err != nil && !receivePathError(r.err) {
+		if v.Msg.U("count") > 4 && (r.err == nil || !receivePathError(r.err)) {
 			return true, ""
 		}
 	}
